@@ -17,6 +17,7 @@ from ..inifront import load_all
 from ..mediator_rules import check_argument_methods, check_reflection, check_run_loops
 from ..protocol import HandlerProtocol
 from ..pyfront import Program, param_names, self_attr
+from ..resolve import Resolver
 from ..selftest import Edit
 
 ID = "C17"
@@ -30,13 +31,17 @@ def check_clock(prog: Program, rep: Report) -> None:
             # interval attribute: assigned in __init__ from a constructor parameter, unchanged elsewhere
             for ref in facts.send_event_time:
                 incs = []
+                R = Resolver(ref.fn)
+                new_clock = set()
                 for n in ast.walk(ref.fn):
                     if isinstance(n, ast.AugAssign) and self_attr(n.target) == "_event_time":
                         incs.append((n, n.op, n.value))
-                    elif isinstance(n, ast.Assign) and self_attr(n.targets[0]) == "_event_time" \
-                            and isinstance(n.value, ast.BinOp):
-                        other = n.value.right if self_attr(n.value.left) == "_event_time" else n.value.left
-                        incs.append((n, n.value.op, other))
+                    elif isinstance(n, ast.Assign) and self_attr(n.targets[0]) == "_event_time":
+                        v = R.res(n.value)     # the new clock may be computed into a local first
+                        if isinstance(v, ast.BinOp):
+                            other = v.right if self_attr(v.left) == "_event_time" else v.left
+                            incs.append((n, v.op, other))
+                            new_clock.add(norm(v))
                 loc = Loc(ref.file, ref.fn.lineno, ref.qual)
                 rep.ob("R17.4-one-step", len(incs) == 1, loc, f"{ref.qual}: {len(incs)} clock advance(s)",
                        "a fixed-interval handler must advance its clock exactly once per candidate")
@@ -49,7 +54,9 @@ def check_clock(prog: Program, rep: Report) -> None:
                     rep.ob("R17.4-interval-step", ok, Loc(ref.file, stmt.lineno, ref.qual), stmt, why)
                 rets = [n for n in ast.walk(ref.fn) if isinstance(n, ast.Return)]
                 for r in rets:
-                    rep.ob("R17.4-returns-clock", r.value is not None and self_attr(r.value) == "_event_time",
+                    rv = r.value
+                    ok = rv is not None and (self_attr(rv) == "_event_time" or R.text(rv) in new_clock)
+                    rep.ob("R17.4-returns-clock", ok,
                            Loc(ref.file, r.lineno, ref.qual), r, "the candidate time returned must be the advanced clock")
             # initial clock: Time(0.0, 0.0) or Time.from_float(-interval)
             init = prog.resolve_method(h, "__init__")
